@@ -10,19 +10,44 @@ from props._cfg_common import TRUSTED, ASSUMPTIONS, TECHNIQUE
 
 PROP = "C20"
 LEVEL = "other"
-THEOREMS = {"Properties.C20": ["C20_symbol_text_roundtrip", "C20_box_certificate", "C20_text_constants_from_source", "C20_grammar_text_roundtrip", "C20_box_code_path"]}
+THEOREMS = {"Properties.C20": ["C20_symbol_text_roundtrip", "C20_box_certificate", "C20_text_constants_from_source", "C20_grammar_text_roundtrip", "C20_box_code_path",
+                                "C20_split_unique", "C20_pda_label_roundtrip", "C20_fst_label_roundtrip", "C20_label_separators_from_source",
+                                "C20_join_split", "C20_read_pda_label_sound", "C20_read_fst_label_sound"]}
 LEVEL_TEXT = ("Partial + correspondence: the VAR:/TER: marker logic of to_text/from_text is modelled at token level and its round trip is proved for every "
-              "symbol that is not an epsilon spelling; json, string splitting and networkx containers are external and not modelled. All round trips "
+              "symbol that is not an epsilon spelling; the edge labels of the PDA / FST networkx export are modelled at character level (assembly with the separators "
+              "regenerated from the source, str.split with exact-two-parts unpacking) and proved to be read back whenever each separator occurs at exactly one position "
+              "(C20_pda_label_roundtrip, C20_fst_label_roundtrip), the model being compared with pyformlang's labels, refusals and read-back transitions on separator-free "
+              "and separator-bearing values; json.dumps/loads and networkx containers are external and not modelled. All round trips "
               "(automaton, PDA, FST through networkx; grammar through text) are checked for exact structural equality on generated objects, grammars also "
               "for bounded language agreement with the exact membership oracle; each RSA box is certified language-equal (proved equivalence check) to the "
               "union of the automata of its right-hand sides.")
-LEVEL_NOTE = "Trusted: Coq kernel; Python harness. json / networkx / str.split are outside the model (recorded assumption: loads(dumps(v)) = v on ints and strings)."
+LEVEL_NOTE = "Trusted: Coq kernel; Python harness. json / networkx are outside the model (str.split is modelled for non-empty separators and compared with the implementation on every label case) (recorded assumption: loads(dumps(v)) = v on ints and strings)."
 RULE = ("random automata (epsilon transitions, several start states, parallel edges, isolated states), PDAs (multi-symbol pushes), FSTs (multi-symbol outputs) with "
         "int/str values x from_networkx(to_networkx()); random grammars with lower-case variables and capitalised terminals x from_text(to_text()); EBNF texts "
-        "(several lines per head, empty bodies, unions, stars) x from_ebnf")
+        "(several lines per head, empty bodies, unions, stars) x from_ebnf; single-transition PDAs / FSTs whose symbol values are names, ints or texts over the "
+        "characters of the separators ' -> ' and ' / ' x to_networkx label x from_networkx (refusal or transition read back)")
 EXPLANATION = "Exact structural comparison of round-tripped objects; certified box/alternative equivalence; token-level marker theorem."
 
-KINDS = ["fa", "fa", "pda", "fst", "cfg_text", "cfg_text", "ebnf"]
+KINDS = ["fa", "fa", "pda", "fst", "cfg_text", "cfg_text", "ebnf", "pda_label", "fst_label"]
+HOSTILE = [" ", " ", "-", ">", "/", "a", '"', "Z"]
+
+
+def rand_label_value(rng):
+    """A symbol value for the label cases: plain names and ints, and texts over the characters of the two separators."""
+    r = rng.random()
+    if r < 0.3:
+        return rng.choice(["a", "b", "Z", "A0", 0, 1, 42, "x y", "->", "/", "a-b", "p>q"])
+    if r < 0.5:
+        return rng.choice(["x -> y", "x / y", " -> ", " / ", "a -", "> b", "Z /", "/ Z", " ->", "-> ", " -> / ", "a / b -> c"])
+    return "".join(rng.choice(HOSTILE) for _ in range(rng.randint(1, 7)))
+
+
+def str_codes(s):
+    return "[" + "; ".join(str(ord(ch)) for ch in s) + "]"
+
+
+def has_sep(v):
+    return isinstance(v, str) and (" -> " in v or " / " in v)
 EBNF_ATOMS = ["a", "b", "c", "S", "A", "B"]
 
 
@@ -64,6 +89,10 @@ def generate(ctx):
             ren_t = {"a": rng.choice(["a", "John", "A", "_u"]), "b": rng.choice(["b", "Mary", "7"]), "c": "c"}
             c["g"] = cfglib.normalise(dict(g, vars=[ren_v[v] for v in g["vars"]], terms=[ren_t[t] for t in g["terms"]], start=ren_v[g["start"]],
                                            prods=[[ren_v[h], [[kk, (ren_v if kk == "V" else ren_t)[v]] for kk, v in b]] for h, b in g["prods"]]))
+        elif k == "pda_label":
+            c["t"] = [rand_label_value(rng), rand_label_value(rng), [rand_label_value(rng) for _ in range(rng.choice([0, 1, 2, 3]))]]
+        elif k == "fst_label":
+            c["t"] = [rand_label_value(rng), [rand_label_value(rng) for _ in range(rng.choice([0, 1, 2, 3]))]]
         else:
             heads = rng.sample(["S", "A", "B"], rng.randint(1, 3))
             if "S" not in heads:
@@ -103,6 +132,30 @@ def impl(case):
         f = fstlib.build_fst(case["f"])
         back = FST.from_networkx(f.to_networkx())
         return {"before": fstlib.extract_fst(f), "after": fstlib.extract_fst(back)}
+    if k in ("pda_label", "fst_label"):
+        import json
+        if k == "pda_label":
+            from pyformlang.pda import PDA
+            a, b, c = case["t"]
+            m = PDA()
+            m.add_transition("q0", a, b, "q1", list(c))
+            fields = [json.dumps(a), json.dumps(b), json.dumps(list(c))]
+            orig = [["q0", a, b, "q1", list(c)]]
+        else:
+            from pyformlang.fst import FST
+            a, c = case["t"]
+            m = FST()
+            m.add_transition("q0", a, "q1", list(c))
+            fields = [json.dumps(a), json.dumps(list(c))]
+            orig = [["q0", a, "q1", list(c)]]
+        graph = m.to_networkx()
+        labels = [d["label"] for u, v, d in graph.edges(data=True) if "label" in d and not (isinstance(u, str) and u.startswith("starting_"))]
+        try:
+            back = type(m).from_networkx(graph)
+            got = pdalib.extract_pda(back)["trans"] if k == "pda_label" else fstlib.extract_fst(back)["trans"]
+        except ValueError:
+            got = "ValueError"
+        return {"labels": labels, "fields": fields, "orig": orig, "got": got}
     if k == "cfg_text":
         from pyformlang.cfg import CFG, Variable
         g = cfglib.build_cfg(case["g"])
@@ -145,25 +198,63 @@ def check_cases(ctx, cases):
             ts = "[" + "; ".join(str(ci.ter(t)) for t in o["before"]["terms"][:3]) + "]"
             lines.append("Eval vm_compute in (lang_diff %s %s (all_words %s 3%%nat) false)." % (G, H, ts))
             owners.append((i, "lang"))
+    lab_lines, lab_owners = [], []
+    for i, c in enumerate(cases):
+        o = obs[i]
+        if c["op"] in ("pda_label", "fst_label") and "labels" in o and len(o["labels"]) == 1:
+            fn = "pda_label_judge" if c["op"] == "pda_label" else "fst_label_judge"
+            lab_lines.append("Eval vm_compute in (%s %s %s)." % (fn, " ".join(str_codes(f) for f in o["fields"]), str_codes(o["labels"][0])))
+            lab_owners.append(i)
     parts = chunks(list(range(len(lines))), 16)
     for part in parts:
         srcs.append("From PFL Require Import Eval.FA.\nFrom PFL Require Import Eval.CFG.\n" + "\n".join(lines[j] for j in part) + "\n")
-    outs = ctx.coq(srcs) if lines else []
+    nmain = len(srcs)
+    if lab_lines:
+        srcs.append("From PFL Require Import Eval.Labels.\n" + "\n".join(lab_lines) + "\n")
+    outs = ctx.coq(srcs) if srcs else []
     verdicts = {}
-    for part, vals in zip(parts, outs):
+    for part, vals in zip(parts, outs[:nmain]):
         for j, v in zip(part, vals):
             verdicts[owners[j]] = v
+    if lab_lines:
+        for i, v in zip(lab_owners, outs[nmain]):
+            verdicts[(i, "label")] = v
     for i, c in enumerate(cases):
         o = obs[i]
         ctx.dist[c["op"]] += 1
         ctx.count(1)
-        key = c.get("fa") or c.get("p") or c.get("f") or c.get("g") or c.get("ebnf")
+        key = c.get("fa") or c.get("p") or c.get("f") or c.get("g") or c.get("ebnf") or c.get("t")
         if len(str(key)) > 120:
             ctx.nontriv([c["op"], key])
         if i % 37 == 0:
             ctx.sample({"op": c["op"], "object": key})
         if "timeout" in o or "exc" in o:
             ctx.fail(c["op"] + "-exception", c, {"impl": o})
+            continue
+        if c["op"] in ("pda_label", "fst_label"):
+            v = verdicts.get((i, "label"))
+            clean = not any(has_sep(x) for x in ([c["t"][0], c["t"][1]] + list(c["t"][2]) if c["op"] == "pda_label" else [c["t"][0]] + list(c["t"][1])))
+            ctx.dist["label_values_without_separator" if clean else "label_values_with_separator"] += 1
+            if len(o["labels"]) != 1 or v is None or not isinstance(v, tuple) or len(v) != 3:
+                ctx.fail(c["op"] + "-label-shape", c, {"impl": o, "model": str(v)}, correspondence_only=True)
+                continue
+            same_label, guard, code = v
+            ctx.dist["label_guard_%s" % ("holds" if guard else "fails")] += 1
+            ctx.dist["label_model_reads_%s" % {0: "refusal", 1: "fields", 2: "other_cut"}.get(code, code)] += 1
+            roundtrip = o["got"] == o["orig"]
+            if clean and not roundtrip:
+                # the property itself: separator-free values must come back
+                ctx.fail(c["op"] + "-roundtrip", c, {"label": o["labels"][0], "written": o["orig"], "read_back": o["got"]})
+            elif not same_label:
+                ctx.fail(c["op"] + "-label-model", c, {"label": o["labels"][0], "fields": o["fields"]}, correspondence_only=True)
+            elif guard and code != 1:
+                raise RuntimeError("model contradicts C20_pda_label_roundtrip / C20_fst_label_roundtrip on %r" % (c,))
+            elif clean and not guard:
+                ctx.fail(c["op"] + "-guard", c, {"label": o["labels"][0], "note": "separator-free values whose label does not meet the premise of the round-trip theorem"}, correspondence_only=True)
+            elif (code == 0) != (o["got"] == "ValueError") and not (code == 2 and o["got"] == "ValueError"):
+                ctx.fail(c["op"] + "-split-model", c, {"label": o["labels"][0], "model_code": code, "impl": o["got"]}, correspondence_only=True)
+            elif (code == 1) != roundtrip:
+                ctx.fail(c["op"] + "-split-model", c, {"label": o["labels"][0], "model_code": code, "impl": o["got"], "written": o["orig"]}, correspondence_only=True)
             continue
         if c["op"] in ("fa", "pda", "fst"):
             b, a = dict(o["before"]), dict(o["after"])
